@@ -16,6 +16,11 @@ pub fn real_trace(schema: &s::Document, doc: &q::Document) -> Option<(Vec<String
     })).ok()
 }
 
+pub fn tmpdir() -> String {
+    let base = std::env::var("VERIF_TMP").unwrap_or_else(|_| "/verif/.build/run/tmp".to_string());
+    format!("{}/{}", base, std::process::id())
+}
+
 pub fn pool() -> Vec<gen::SchemaInfo> {
     schemas::pool().into_iter().map(|(n, t)| gen::SchemaInfo::new(n, &t)).collect()
 }
@@ -99,6 +104,7 @@ pub fn one_case(kind: &str, si: &gen::SchemaInfo, input: &J, out: &mut Out) {
     match kind {
         "trace" => trace_case(si, input.as_str().unwrap(), out),
         "svisit" => svisit_case(&si.name, &si.text, out),
+        "validate" => crate::valcases::validate_case(si, input.as_str().unwrap(), &tmpdir(), out),
         "ext" => {
             let mut rng = Rng::new(crate::env_seed());
             crate::extcases::schema_cases(si, false, &mut rng, out);
@@ -143,6 +149,19 @@ pub fn generate(kind: &str, thorough: bool, seed: u64, corpus: &str, out: &mut O
                 for t in random_docs(si, &mut rng, 10, 4) { crate::extcases::spreads_case(&t, out); }
             }
             crate::extcases::value_cases(thorough, &mut rng, out);
+        }
+        "validate" => {
+            let tmp = tmpdir();
+            for si in pool() {
+                out.schema(&si);
+                for t in corpus_docs(corpus, &si.name) { crate::valcases::validate_case(&si, &t, &tmp, out); }
+                for t in random_docs(&si, &mut rng, 120 * scale, 4) { crate::valcases::validate_case(&si, &t, &tmp, out); }
+            }
+            for i in 0..(6 * scale) {
+                let si = gen::SchemaInfo::new(&format!("random{}", i), &gen::random_schema(&mut rng));
+                out.schema(&si);
+                for t in random_docs(&si, &mut rng, 40, 4) { crate::valcases::validate_case(&si, &t, &tmp, out); }
+            }
         }
         _ => panic!("unknown kind {}", kind),
     }
